@@ -241,12 +241,34 @@ Theorem C09_matrix_insert_refines : forall mapc kind p nr m es, 0 < p -> 0 <= a_
 Proof. exact matrix_insert_refines. Qed.
 Print Assumptions C09_matrix_insert_refines.
 
+(* ---- whole histories of a plain Base_matrix (any of the three column representations, with or without row access, map or
+   vector column container): the matrix invariant m_inv (sorted reduced columns in range, the two row dictionaries inverse
+   permutations, identity when no swap is pending) holds for the empty matrix, is kept by every operation, and what is read
+   through the row dictionary after any sequence of insert_column, remove_column, remove_last, add_to,
+   multiply_target_and_add_to, multiply_source_and_add_to (source = target included), zero_entry, zero_column, swap_rows,
+   swap_columns and deferred reorderings is the dense matrix obtained by the same sequence of dense operations *)
+Theorem C09_empty_matrix_invariant : forall p nr kind, 0 < p -> m_inv p nr kind (a_empty nr).
+Proof. exact m_inv_empty. Qed.
+Print Assumptions C09_empty_matrix_invariant.
+
+Theorem C09_step_refines : forall mapc ra kind p nr, kind = 0 \/ kind = 1 \/ kind = 2 ->
+  forall m o, m_inv p nr kind m -> op_ok nr o ->
+  m_inv p nr kind (a_step mapc ra kind p m o) /\ a_abs p nr (a_step mapc ra kind p m o) = d_step mapc p nr (a_abs p nr m) o.
+Proof. exact step_refines. Qed.
+Print Assumptions C09_step_refines.
+
+Theorem C09_history_refines : forall mapc ra kind p nr, kind = 0 \/ kind = 1 \/ kind = 2 ->
+  forall ops m, m_inv p nr kind m -> Forall (op_ok nr) ops ->
+  m_inv p nr kind (fold_left (a_step mapc ra kind p) ops m) /\
+  a_abs p nr (fold_left (a_step mapc ra kind p) ops m) = fold_left (d_step mapc p nr) ops (a_abs p nr m).
+Proof. exact history_refines. Qed.
+Print Assumptions C09_history_refines.
+
 (* ---- not proved; compared on every generated history by the correspondence check ---- *)
-(* missing: insert_column(column, index) with holes, the invariants (c_wf, c_ok, the dictionaries are inverse permutations,
-   erased rows are stored rows) as one matrix-wide invariant kept by every operation, and from it the induction over histories:
-   every observation of the algorithm model after any operation sequence equals the observation of the dense matrix *)
-Definition C09_matrix_history_refinement_full : Prop :=
-  forall p nr kind m es idx, prime p -> length (a_i2r m) = nr -> a_col m idx = None ->
+(* missing: insert_column(column, index) with holes in the vector container; the emptiness / zero-entry tests at matrix level
+   (they need the zero-freeness invariant, proved per column above for prime p, carried through histories) *)
+Definition C09_matrix_insert_at_full : Prop :=
+  forall p nr kind m es idx, prime p -> m_inv p nr kind m -> a_col m idx = None -> sorted es -> rows_in nr es -> 0 <= idx ->
     a_abs p nr (a_insert_at (all_fixed false) false kind p m idx es) = d_insert_at false p nr (a_abs p nr m) idx es.
 (* missing: the union-find model k_* against the class specification dk_* *)
 Definition C09_compression_eq_plain_full : Prop :=
